@@ -23,7 +23,7 @@ Keys are lower-case hex, the empty key is `-`; a pair is `<hexkey>:<value>`.
   pinit <pair> ...            (a pooled trie object that holds another dictionary)
   pload full|t<m>|f<pos>:<byte>   (UnmarshalBinary INTO that object: the image, a truncation, a byte flip)
   blikepat <pattern>          (like dispatch of indexKVStore.FindValuesByLike)
-  bsplit <blockSize> <n> | bframes | bumal <hex> | bget <key> | bvalues | bpairs | bsuggest <key> <limit> | blike <prefix> <pre|suf|has> <sub> | bmerge <blockSize>
+  bsplit <blockSize> <n> | bcollect <value>* | bframes | bumal <hex> | bget <key> | bvalues | bpairs | bsuggest <key> <limit> | blike <prefix> <pre|suf|has> <sub> | bmerge <blockSize>
 -/
 import LinVerif.Util.Proto
 import LinVerif.Model.Louds
@@ -422,6 +422,13 @@ def step (st : St) (ws : List String) : St × String :=
     match parseKey pat with
     | none => (st, "bad-op")
     | some like => withBucket st (fun ts => showNats (sortNats (bucketLike eon stepLB ts like)))
+  | "bcollect" :: vs =>
+    -- `TrieBucket.CollectKVs(values, result)` with the wanted values `vs` (a set) and an empty result map
+    match vs.mapM (fun x => x.toNat?) with
+    | none => (st, "bad-op")
+    | some vals =>
+      withBucket st (fun ts =>
+        showPairs (sortPairsByKey ((collectTries stepLB ts vals.eraseDups []).map (fun vk => (vk.2, vk.1)))))
   | ["bframes"] =>
     -- the framed value(s) of the current bucket: per trie `[u32 MarshalSize][image]`; the model frames its own
     -- tries, runs `TrieBucket.Unmarshal`'s loop over the result and answers count + frame digests (sorted)
